@@ -249,6 +249,9 @@ pub fn fork(kind: ForkKind, cfg_a: &Cfg, cfg_b: &Cfg, head_a: &[Op], head_b: &[O
         let v = a.w.viol.clone().or(b.w.viol.clone());
         return ForkResult { viol: v, a, b };
     }
+    if kind == ForkKind::Crash && (a.w.lenient || b.w.lenient) {
+        return ForkResult { viol: None, a, b };
+    }
     if kind == ForkKind::Fresh {
         // configuration scope: carry the user's ping override over to the fresh object
         if let Some(ms) = a.w.m.user_ms {
